@@ -710,9 +710,17 @@ static void data_bar_print(FILE *fp,
                            const double acfval,
                            const uint16_t max_bar_width)
 {
-    cmb_assert_release((acfval >= -1.0) && (acfval <= 1.0));
+    /*
+     * Sample autocorrelations at lags close to the sample count can exceed one
+     * in magnitude (cmb_dataset_ACF divides by count - lag), and a degenerate
+     * PACF recursion can give NaN. Draw a full bar for those, do not abort.
+     */
+    double barval = fabs(acfval);
+    if (!(barval <= 1.0)) {
+        barval = 1.0;
+    }
 
-    const double bar_width = (double)max_bar_width * fabs(acfval);
+    const double bar_width = (double)max_bar_width * barval;
     const uint16_t num_filled = (uint16_t)floor(bar_width);
     cmb_assert_debug(num_filled <= max_bar_width);
     const double rem = bar_width - num_filled;
@@ -722,10 +730,15 @@ static void data_bar_print(FILE *fp,
     const double min_rem_plus = 0.5;
 
     if (acfval < 0.0) {
-        const uint16_t num_spaces = max_bar_width - num_filled - 1;
+        /* A full bar leaves no room for a partial symbol (and 0 - 1 would wrap) */
+        const uint16_t num_spaces = (num_filled < max_bar_width) ?
+                                (uint16_t)(max_bar_width - num_filled - 1u) : 0u;
         data_print_chars(fp, symbol_empty, num_spaces);
 
-        if (rem > min_rem_plus) {
+        if (num_filled >= max_bar_width) {
+            /* Nothing to add */
+        }
+        else if (rem > min_rem_plus) {
             const int r = fputc(symbol_half, fp);
             cmb_assert_release(r == symbol_half);
         }
